@@ -136,3 +136,9 @@ Theorem C02_no_write_through_dangling_link : forall fc src dst e,
   forall a, List.In a (fst (copy_actions_d true fc src dst e)) -> mutated a = nil.
 Proof. exact copy_dangling_refused. Qed.
 Print Assumptions C02_no_write_through_dangling_link.
+
+(* ---- more glue on this property's path, pinned token for token ---- *)
+From XcpPins Require Import Pin_operations_tree_walker.
+Theorem C02_src_pin_operations_tree_walker : pin_unchanged name_operations_tree_walker.
+Proof. exact pin_operations_tree_walker. Qed.
+Print Assumptions C02_src_pin_operations_tree_walker.
